@@ -74,7 +74,7 @@ type index interface {
 	minMax(par int, op string, cols []uint64, all bool) *big.Int
 	sum(cols []uint64, all bool) (*big.Int, uint64)
 	transpose(par int, cols []uint64, all bool) []uint64
-	transposeCounts(par int, cols []uint64, all bool) [][2]uint64
+	transposeCounts(par int, cols []uint64, all bool, filter []uint64) [][2]uint64
 	parOr(par int, os []index)
 	add(o index)
 	increment(cols []uint64)
@@ -217,11 +217,17 @@ func (x *ix64) minMax(par int, op string, cols []uint64, all bool) *big.Int {
 	return big.NewInt(x.b.MinMax(par, roaring64.Operation(opCode[op]), fs64(x, cols, all, false)))
 }
 func (x *ix64) sum(cols []uint64, all bool) (*big.Int, uint64) {
-	if x.big {
-		return x.b.SumBigValues(fs64(x, cols, all, false))
+	bs, bc := x.b.SumBigValues(fs64(x, cols, all, false))
+	if bs.IsInt64() { // Sum returns an int64: it is only asked when the true sum fits
+		s, c := x.b.Sum(fs64(x, cols, all, false))
+		if x.big {
+			return bs, bc
+		}
+		if big.NewInt(s).Cmp(bs) != 0 || c != bc {
+			return big.NewInt(s), c // disagreement between Sum and SumBigValues: report Sum's answer
+		}
 	}
-	s, c := x.b.Sum(fs64(x, cols, all, false))
-	return big.NewInt(s), c
+	return bs, bc
 }
 func (x *ix64) transpose(par int, cols []uint64, all bool) []uint64 {
 	if all {
@@ -229,13 +235,10 @@ func (x *ix64) transpose(par int, cols []uint64, all bool) []uint64 {
 	}
 	return x.b.IntersectAndTranspose(par, bm64of(cols)).ToArray()
 }
-func (x *ix64) transposeCounts(par int, cols []uint64, all bool) [][2]uint64 {
-	// explicit filter set: every value the driver can have stored (0..64 scaled); a nil filter defaults to the
+func (x *ix64) transposeCounts(par int, cols []uint64, all bool, fvals []uint64) [][2]uint64 {
+	// explicit filter set (every value currently stored and a few more): a nil filter defaults to the
 	// existence bitmap, i.e. it keeps only values that happen to be existing column ids
-	filter := roaring64.New()
-	for v := uint64(0); v <= 64; v++ {
-		filter.Add(v << x.k)
-	}
+	filter := roaring64.BitmapOf(fvals...)
 	r := x.b.TransposeWithCounts(par, fs64(x, cols, all, false), filter)
 	var out [][2]uint64
 	for _, c := range r.GetExistenceBitmap().ToArray() {
@@ -365,7 +368,7 @@ func (x *ix32) transpose(par int, cols []uint64, all bool) []uint64 {
 	}
 	return arr64(x.b.IntersectAndTranspose(par, bm32of(cols)).ToArray())
 }
-func (x *ix32) transposeCounts(par int, cols []uint64, all bool) [][2]uint64 {
+func (x *ix32) transposeCounts(par int, cols []uint64, all bool, fvals []uint64) [][2]uint64 {
 	r := x.b.TransposeWithCounts(par, fs32(x, cols, all, false))
 	var out [][2]uint64
 	for _, c := range r.GetExistenceBitmap().ToArray() {
@@ -592,7 +595,8 @@ func (e *bsiExec) do(ev *BEvent) {
 	switch c.Op {
 	case "BNew":
 		e.slots[c.Dst] = e.newIndex(c.Auto)
-		e.auto[c.Dst] = c.Auto
+		// (for k = 70 the bounds do not fit NewBSI's int64 arguments: such indexes are always auto-sized)
+		e.auto[c.Dst] = c.Auto || (e.impl == 64 && e.k > 56)
 	case "BSetValue":
 		x.setValue(e.colID[c.Col-1], e.scale(c.Val))
 	case "BSetMany":
@@ -710,7 +714,16 @@ func (e *bsiExec) do(ev *BEvent) {
 		}
 		ev.Ret = map[string]any{"vals": vals, "other": other}
 	case "BTransposeCounts":
-		res := x.transposeCounts(c.Par, cc, c.All)
+		var fvals []uint64
+		for _, v := range e.current(c.X) {
+			if v >= 0 {
+				fvals = append(fvals, e.scale(v).Uint64())
+			}
+		}
+		for v := 0; v <= 16; v++ {
+			fvals = append(fvals, e.scale(v).Uint64())
+		}
+		res := x.transposeCounts(c.Par, cc, c.All, fvals)
 		pairs := [][2]int{}
 		other := false
 		for _, p := range res {
